@@ -35,6 +35,21 @@ var commonAssumptions = []string{
 // All lists the claimed properties.
 var All = []*Prop{
 	{
+		ID:    "C17",
+		Rules: []*core.Rule{rules.FreshDetach, rules.UnsafeOwner},
+		Explanation: "Memory-safety clause. Element access is unsafe.Add(SliceData(buf), idx) with no bounds check and the only run-time event that invalidates a once-valid index is detach (length/offset/elemSize/viewedArrayBuf are written only at construction: checked). " +
+			"R-FRESH-DETACH is a forward must-dataflow over SSA with inter-procedural summaries: every call of typedArray.{get,set,getRaw,setRaw,less,swap,export} and every slicing/indexing/copy of arrayBufferObject.data must be reached only by paths on which the buffer was checked not-detached (ensureNotDetached(true), the true edge of ensureNotDetached(false)/isValidIntegerIndex, !detached), or is a brand-new unescaped buffer, after the last call that may run script and return. 'May run script' is a greatest-fixed-point summary over the VTA call graph (calls that only run script on a path ending in panic do not count; typeErrorResult(true,..) is recognised as no-return). " +
+			"Side obligations checked on every run: the value passed to typedArray.set is already primitive (conversion before the element pointer is computed); typeMatch implementations are call-free; assertCallable/assertConstructor implementations never invoke; the sort-context needValidate protocol; field stability; defaultCtor is always r.global.<TypedArray>; buffer data is only replaced by detach() or on new buffers; ensureNotDetached returns true only on the !detached edge. " +
+			"R-UNSAFEOWNER: package unsafe is referenced only in the element accessors (whose call sites are the guarded uses) and an audited table of dereference-free idioms.",
+		Assumptions: []string{
+			"constructing through an intrinsic %TypedArray% constructor (X.defaultCtor, always loaded from r.global) with primitive arguments runs no user code: its 'prototype' property is a non-configurable data property",
+			"objects passed as receivers/arguments to module functions do not become reachable by script except through their *Object handle (X.val)",
+		},
+		Technique:  "guard-freshness forward dataflow on SSA with may-run-script kills (VTA call graph fixed point), escape-aware local objects, alias summaries; who-may-use rule for package unsafe",
+		DesignRef:  "DESIGN.md section 4, C17",
+		NotCovered: "index range arithmetic (that offset+i < length*elemSize; e.g. copyWithin's count clamp) — R-IDXBOUND is not armed; byte-level NumericToRawBytes semantics; aliasing equality of views; Go-side []byte sharing after Detach",
+	},
+	{
 		ID:    "C13",
 		Rules: []*core.Rule{rules.ExportCycle},
 		Explanation: "Clause decided: 'exporting a script-built object graph preserves sharing and cycles within one export' and, as its safety half, 'no export recursion aborts the host'. R-EXPORTCYCLE enumerates every implementation of objectImpl.export / exportToMap / exportToArrayOrSlice (and the generic helpers); each one that contains a recursion point into the object's own contents (exportValue, X.self.export, toReflectValue) must (a) for the untyped variant look its own object up with ctx.get and recurse only on the miss edge, (b) register its own object with ctx.put/putTyped on every path before each recursion point (dominance); typed variants must only be invoked on the miss edge of ctx.getTyped. Pure pass-through to another object's implementation is recognised as delegation.",
